@@ -8,6 +8,20 @@ use std::cmp::Ordering;
 use std::collections::HashMap;
 use std::path::{Path, PathBuf};
 
+/// Lowest (page aligned) virtual address of the loadable segments of an object file.
+fn lowest_load_vaddr(path: &Path) -> Option<usize> {
+    use object::{Object, ObjectSegment};
+
+    let file = std::fs::File::open(path).ok()?;
+    let mmap = unsafe { memmap2::Mmap::map(&file).ok()? };
+    let object = object::File::parse(&*mmap).ok()?;
+    object
+        .segments()
+        .map(|segment| segment.address() as usize)
+        .min()
+        .map(|addr| addr & !0xfff)
+}
+
 /// Memory region range.
 #[derive(Debug, Clone)]
 pub struct RegionRange {
@@ -112,7 +126,11 @@ impl DwarfRegistry {
                 .max_by(|map1, map2| map1.start().cmp(&map2.start()))
                 .expect("at least one mapping must exists");
 
-            let mapping = lower_sect.start();
+            // load bias: start of the first mapping minus the lowest PT_LOAD address of the object
+            // (0 for PIE and shared objects, the link base for ET_EXEC executables)
+            let mapping = lower_sect
+                .start()
+                .saturating_sub(lowest_load_vaddr(absolute_debugee_path).unwrap_or(0));
 
             let range = RegionRange {
                 from: RelocatedAddress::from(lower_sect.start()),
